@@ -1,6 +1,7 @@
 package actionlint
 
 import (
+	"sort"
 	"strconv"
 	"strings"
 )
@@ -162,7 +163,14 @@ func collectCycle(src *jobNode, edges map[*jobNode]*jobNode) bool {
 // https://inzkyk.xyz/algorithms/depth_first_search/detecting_cycles/
 
 func detectFirstCycle(nodes map[string]*jobNode) *edge {
+	// Visit nodes in the order of their positions. When there are multiple cycles, the detected one
+	// would depend on the iteration order of the map otherwise.
+	sorted := make([]*jobNode, 0, len(nodes))
 	for _, v := range nodes {
+		sorted = append(sorted, v)
+	}
+	sort.Slice(sorted, func(i, j int) bool { return sorted[i].pos.IsBefore(sorted[j].pos) })
+	for _, v := range sorted {
 		if v.status == nodeStatusNew {
 			if e := detectCyclicNode(v); e != nil {
 				return e
